@@ -20,6 +20,7 @@ Atomicity choices (documented, see DESIGN App. B "pushtx"):
 * a rebroadcast ends with the return of its last `cfg.Broadcast`; the real
   goroutine hands the semaphore back a few instructions later.
 * a rebroadcast of an empty snapshot starts and ends inside `trigger`.
+* after `closeSub` only ticks can be `trigger`s (no block event can arrive on a closed channel).
 -/
 namespace Neutrino.PushTx
 
@@ -54,6 +55,8 @@ inductive Op
   | trigger                     -- a block notification or a ticker tick reaches the handler
   | rbStep (id : TxId) (r : Res) -- the running rebroadcast's cfg.Broadcast(tx id) returns r
   | stop                        -- Broadcaster.Stop()
+  | closeSub                    -- the block subscription's Notifications channel is closed (its source ended)
+  | subSpin                     -- the handler takes the `_, ok := <-sub.Notifications` arm with ok = false
 deriving DecidableEq, Repr
 
 inductive Out
@@ -76,6 +79,11 @@ structure State where
   /-- `some todo`: a rebroadcast goroutine is running and still has `todo` to send -/
   running : Option (List Tx) := none
   stopped : Bool := false
+  /-- the subscription channel is closed: its arm of the handler's select is ready all the time.  The
+  code logs and `continue`s, so the handler spins (`subSpin`, any number of times between any two
+  other events) but keeps serving requests, confirmations, ticks and quit: Go's select picks
+  uniformly among the ready cases.  Nothing else reads this flag. -/
+  subClosed : Bool := false
 deriving DecidableEq, Repr
 
 def ids (l : List Tx) : List TxId := l.map (·.id)
@@ -114,6 +122,8 @@ def step (s : State) : Op → State × Out
           | t :: ts => ({ s with pending := pending', running := some (t :: ts) }, .more)
       else (s, .bad)
   | .stop => ({ s with stopped := true }, .ret)
+  | .closeSub => ({ s with subClosed := true }, .ret)
+  | .subSpin => (s, .noop)
 
 def run (s : State) : List Op → State
   | [] => s
